@@ -209,6 +209,43 @@ def h_enc_enum(code, lo, hi, cname='Bits'):
     return h
 
 
+def h_enc_history(code):
+    """the codeword of v does not depend on what was done to bitstrings encoded from v earlier (memoised encoders must not hand out shared mutable stores);
+    runs with the real lru caches (env.live_caches) on concrete values chosen by solver forks"""
+    def h(K):
+        import bitstring
+        from kit import env
+        env.clear_caches()
+        v = K.choice('v', [0, 1, 2, 3, 6, 7] if code in ('ue', 'uie') else [0, 1, -1, 2, -3, 4])
+        u = v if code in ('ue', 'uie') else se_to_codenum(v)
+        exp = (O.from01('0' * ((u + 1).bit_length() - 1) + bin(u + 1)[2:]) if code in ('ue', 'se') else (ref_uie_bits(v) if code == 'uie' else ref_sie_bits(v)))
+        first = K.choice('first', ['kw-BitArray', 'kw-BitStream', 'prop', 'pack', 'str-BitArray', 'build'])
+        mut = K.choice('mutation', ['append', 'invert', 'setitem', 'clear', 'overwrite'])
+        makers = {'kw-BitArray': lambda: bitstring.BitArray(**{code: v}), 'kw-BitStream': lambda: bitstring.BitStream(**{code: v}), 'prop': lambda: _via_prop(bitstring.BitArray, code, v),
+                  'pack': lambda: bitstring.pack(code, v), 'str-BitArray': lambda: bitstring.BitArray(f'{code}={v}'), 'build': lambda: bitstring.BitArray(bitstring.Dtype(code).build(v))}
+        r0 = call(makers[first])
+        if not r0.ok:
+            return K.fail('encoder raised', route=first, exc=r0.excname)
+        a = r0.value
+        muts = {'append': lambda: a.append('0b1'), 'invert': lambda: a.invert(), 'setitem': lambda: a.__setitem__(0, 1 - int(a[0])), 'clear': lambda: a.clear(), 'overwrite': lambda: a.overwrite('0b1', 0)}
+        call(muts[mut])
+        for rn, g in _routes(bitstring.Bits, code, v).items():
+            r = call(g)
+            if not K.check(r.ok and same(raw(r.value), exp), 'the codeword of a value changed after a bitstring encoded from the same value was mutated', route=rn, first=first, mutation=mut, v=v,
+                           got=raw(r.value) if r.ok else None, expected=exp):
+                return False
+        s = call(lambda: bitstring.BitArray(**{code: v}))
+        return K.check(s.ok and same(raw(s.value), exp), 'keyword route after a mutation', v=v)
+    return h
+
+
+def _via_prop(cls, code, v):
+    from kit.state import set_attr
+    o = cls()
+    set_attr(o, code, v)
+    return o
+
+
 def h_negative(code):
     def h(K):
         import bitstring
@@ -337,6 +374,9 @@ def conditions(tier):
             add(f'C10.encode[{code},k={k}]', h_enc_class(code, k), f'every value whose codeNum+1 lies in [2^{k}, 2^{k + 1}); 4 creation routes, 4 decoding routes', D_ENC + D_DEC, code=code, k=k)
     for code, lo, hi in (('uie', 0, 40 if q else 600), ('sie', -30 if q else -400, 30 if q else 400), ('ue', 0, 20 if q else 200), ('se', -15 if q else -120, 15 if q else 120)):
         add(f'C10.encode-enum[{code},{lo}..{hi}]', h_enc_enum(code, lo, hi), f'every value in [{lo},{hi}] (solver-enumerated) against the bit-exact reference codeword', D_ENC + D_DEC, code=code)
+    from kit import env as _env
+    for code in CODES:
+        conds.append(Cond(f'C10.encode-history[{code}]', h_enc_history(code), '6 values x 6 first routes x 5 mutations (concrete, chosen by solver forks) x every encoding route afterwards; live lru caches', D_ENC, {'code': code}, timeout=T, setup=_env.live_caches))
     for code in ('ue', 'uie'):
         add(f'C10.negative[{code}]', h_negative(code), 'every negative Python int', D_ENC, code=code)
     for code in CODES:
